@@ -17,7 +17,7 @@ OWN = {
     "own-hybrid-class": ("TorrentFileHybrid", {}),
 }
 REF = ["ref-V1", "ref-V1-perm", "ref-V1-bep47", "ref-V2", "ref-HY-notrail",
-       "ref-HY-trail"]
+       "ref-HY-trail", "ref-V1-extra", "ref-V2-extra"]
 PADDED_V1 = {"own-v1-aligned", "ref-V1-bep47"}
 
 
@@ -35,11 +35,37 @@ def ref_meta(family, tree, P, B):
         return model.ref_hybrid(name, tree, P, B, trail=False)
     if family == "ref-HY-trail":
         return model.ref_hybrid(name, tree, P, B, trail=True)
+    if family in ("ref-V1-extra", "ref-V2-extra"):
+        # conformant metafiles carrying keys this tool never writes
+        if family == "ref-V1-extra":
+            m = model.ref_v1(name, tree, P)
+            for e in m[b"info"].get(b"files", []):
+                e[b"md5sum"] = b"0" * 32
+                e[b"attr"] = b"x"
+        else:
+            m = model.ref_v2(name, tree, P, B)
+
+            def mark(node):
+                for k, v in node.items():
+                    if b"" in v:
+                        v[b""][b"attr"] = b"x"
+                    else:
+                        mark(v)
+            mark(m[b"info"][b"file tree"])
+        m[b"comment"] = b"top-level comment"
+        m[b"encoding"] = b"UTF-8"
+        m[b"created by"] = b"ref"
+        m[b"info"][b"x-unknown"] = [b"\xff", 1]
+        m[b"nodes"] = [[b"127.0.0.1", 6881]]
+        return m
     raise ValueError(family)
 
 
 def families(tier, nfiles):
     fams = ["own-v1", "own-v1-aligned", "own-v2", "own-hybrid"] + REF
+    if tier == "quick":
+        fams = [f for f in fams if not f.endswith("-extra")] if nfiles > 2 \
+            else fams
     if tier == "thorough":
         fams += ["own-v2-class", "own-hybrid-class"]
     return fams
@@ -162,7 +188,7 @@ class RecheckCheck:
                             continue
                         top = P // 2 + 1 if quick else P + 1
                     elif n == 2:
-                        top = 2 * P + 1 if quick else min(4 * P + 1, 34)
+                        top = 2 * P + 1 if quick else min(4 * P + 1, 26)
                     else:
                         top = 2 * P + 1 if quick else 4 * P + 1
                     alpha = list(range(0, top + 1))
